@@ -1,40 +1,139 @@
 import SophiaModel.Basic.Proto
 import SophiaModel.Model.Iri3987
-import SophiaModel.Gen.Regexes
+import SophiaModel.Model.IriWrapper
 import SophiaModel.Model.Resolve3986
+import SophiaModel.Model.OxiriResolve
 
 namespace SophiaModel.Driver.C09
 open SophiaModel Proto Re
 
-/-- `m <hex>`: acceptance by the generated validators (model of the implementation) and by the
-RFC 3987 grammar (oracle). -/
+def rfcAbs (w : List Nat) : Bool := matchB Rfc3987.IRI w
+def rfcRel (w : List Nat) : Bool := matchB Rfc3987.irelativeRef w
+
+/-- model fields (what the code does, as wired in /repo) and oracle fields `o.*` (what RFC 3987
+demands) for one string: the three validators, `Iri::new` / `IriRef::new`, `BaseIri::new` /
+`BaseIriRef::new`, `as_base` / `to_base` on every accepted value. -/
+def membership (s : String) : String :=
+  let w := ofStr s
+  let oa := rfcAbs w
+  let orl := rfcRel w
+  reply [kvB "abs" (IriWrapper.isAbsolute w), kvB "rel" (IriWrapper.isRelative w), kvB "ref" (IriWrapper.isValidRef w),
+         kvB "new_abs" (IriWrapper.iriNew w), kvB "new_ref" (IriWrapper.iriRefNew w),
+         kvB "sfx_none" (IriWrapper.suffixed w none),
+         kvB "bnew" (IriWrapper.baseIriNew w), kvB "brnew" (IriWrapper.baseIriRefNew w),
+         kvB "o.abs" oa, kvB "o.rel" orl, kvB "o.ref" (oa || orl),
+         kvB "o.new_abs" oa, kvB "o.new_ref" (oa || orl), kvB "o.sfx_none" (oa || orl),
+         -- every accepted value can be used as a base (compared only where the implementation
+         -- could construct the value at all)
+         kv "o.base" "ok", kv "o.tobase" "ok", kv "o.refbase" "ok", kv "o.reftobase" "ok"]
+
+/-- long inputs are described, not transmitted: both sides build the same string -/
+def rep (n : Nat) (s : String) : String := String.join (List.replicate n s)
+
+def longStr (kind n : Nat) : Option String :=
+  match kind with
+  | 0 => some ("http://a/" ++ rep n "ab/")
+  | 1 => some ("http://a/?" ++ rep n "q=1&")
+  | 2 => some ("x:" ++ rep n "%4a")
+  | 3 => some ("http://" ++ rep n "a" ++ "/")
+  | 4 => some (rep n "../" ++ "g")
+  | 5 => some ("http://a/" ++ rep n "é")
+  | 6 => some ("http://a/" ++ rep n "a" ++ " ")
+  | 7 => some ("http://[" ++ rep n "1:" ++ "]/")
+  | 8 => some ("//u@h:1/" ++ rep n "a/" ++ "#" ++ rep n "f")
+  | 9 => some (rep n "a" ++ ":b")
+  | 10 => some ("http://a/" ++ rep n "b/" ++ "%4")
+  | 11 => some ("?" ++ rep n (String.singleton (Char.ofNat 0xE000)))
+  | _ => none
+
+/-- long (base, reference) pairs -/
+def longPair (kind n : Nat) : Option (String × String) :=
+  match kind with
+  | 0 => some ("http://a/" ++ rep n "b/" ++ "c", rep (n / 2) "../" ++ "g")
+  | 1 => some ("http://a/b", rep n "x/" ++ rep n "../" ++ "g")
+  | 2 => some ("x:/" ++ rep n "b/", rep n "./" ++ "g?" ++ rep n "q")
+  | 3 => some ("http://a/" ++ rep n "b", rep n "c" ++ "#" ++ rep n "f")
+  | _ => none
+
+def hexOfOptStr : Option Str → String
+  | none => "panic"
+  | some r => hexOfChars r
+
+def resolveAbs (b r : String) : String :=
+  let wb := ofStr b
+  let wr := ofStr r
+  if IriWrapper.iriNew wb && IriWrapper.iriRefNew wr then
+    let res := Rfc3986.resolve b.toList r.toList
+    reply [kv "skip" "0", kv "o.res" (hexOfChars res), kv "o.valid" "1", kv "o.paths_agree" "1",
+           kv "ox.res" (hexOfOptStr (OxiriResolve.resolve b.toList r.toList)),
+           kvB "res_is_rfc_iri" (rfcAbs (res.map Char.toNat))]
+  else "skip=1"
+
+/-- any accepted reference (relative ones included) as the base: `IriRef::resolve`,
+`BaseIriRef::resolve/resolve_into`.  The property demands: no panic, the result is an accepted
+reference, all paths agree; with an absolute base, the RFC 3986 §5.2 result. -/
+def resolveRef (b r : String) : String :=
+  let wb := ofStr b
+  let wr := ofStr r
+  if IriWrapper.iriRefNew wb && IriWrapper.iriRefNew wr then
+    let fs := [kv "skip" "0", kv "o.rpanic" "0", kv "o.rvalid" "1", kv "o.rpaths_agree" "1",
+               kv "ox.res" (hexOfOptStr (OxiriResolve.resolve b.toList r.toList))]
+    if rfcAbs wb then
+      reply (fs ++ [kv "o.rres" (hexOfChars (Rfc3986.resolve b.toList r.toList)), kv "o.rabs" "1"])
+    else reply fs
+  else "skip=1"
+
+def namespaceReq (ns sfx : String) : String :=
+  let wn := ofStr ns
+  let ws := ofStr sfx
+  let rfcRef := fun (w : List Nat) => rfcAbs w || rfcRel w
+  let getS := fun (o : Option Bool) => match o with | none => "na" | some true => "ok" | some false => "err"
+  let oget : Option Bool := if rfcRef wn then some (rfcRef (wn ++ ws)) else none
+  reply [kvB "ns_new" (IriWrapper.namespaceNew wn), kv "get" (getS (IriWrapper.namespaceGet wn ws)),
+         kvB "sfx" (IriWrapper.suffixed wn (some ws)), kvB "sfx_none" (IriWrapper.suffixed wn none),
+         kv "term" (hexOfString (String.ofList ((IriWrapper.nsTermStr wn ws).map Char.ofNat))),
+         kvB "o.ns_new" (rfcRef wn), kv "o.get" (getS oget), kvB "o.sfx" (rfcRef (wn ++ ws)),
+         kvB "o.sfx_none" (rfcRef wn), kv "o.term" (hexOfString (ns ++ sfx)), kv "o.term_iri" "ok"]
+
 def handle (line : String) : String :=
   match fields line with
   | ["m", h] =>
     match stringOfHex h with
     | none => "bad-hex"
-    | some s =>
-      let w := ofStr s
-      let a := matchB Gen.IRI_REGEX w
-      let r := matchB Gen.IRELATIVE_REF_REGEX w
-      reply [kvB "abs" a, kvB "rel" r, kvB "ref" (a || r),
-             kvB "o.abs" (matchB Rfc3987.IRI w), kvB "o.rel" (matchB Rfc3987.irelativeRef w)]
+    | some s => membership s
+  | ["ml", k, n] =>
+    match k.toNat?, n.toNat? with
+    | some k, some n => match longStr k n with
+      | some s => membership s
+      | none => "bad-op"
+    | _, _ => "bad-op"
   | ["r", hb, hr] =>
     match stringOfHex hb, stringOfHex hr with
-    | some b, some r =>
-      if matchB Gen.IRI_REGEX (ofStr b) && matchB Gen.IRI_REF_REGEX (ofStr r) then
-        let res := Rfc3986.resolve b.toList r.toList
-        reply [kv "o.res" (hexOfChars res), kv "o.valid" "1", kv "o.paths_agree" "1",
-               kvB "res_is_rfc_iri" (matchB Rfc3987.IRI (res.map Char.toNat))]
-      else "skip=1"
+    | some b, some r => resolveAbs b r
+    | _, _ => "bad-hex"
+  | ["rl", k, n] =>
+    match k.toNat?, n.toNat? with
+    | some k, some n => match longPair k n with
+      | some (b, r) => resolveAbs b r
+      | none => "bad-op"
+    | _, _ => "bad-op"
+  | ["rr", hb, hr] =>
+    match stringOfHex hb, stringOfHex hr with
+    | some b, some r => resolveRef b r
+    | _, _ => "bad-hex"
+  | ["ns", hn, hs] =>
+    match stringOfHex hn, stringOfHex hs with
+    | some ns, some sfx => namespaceReq ns sfx
     | _, _ => "bad-hex"
   | ["witness"] =>
     let f := fun (o : Option (List Nat)) => match o with
       | none => "none"
       | some w => hexOfString (String.ofList (w.map Char.ofNat))
-    reply [kv "abs" (f (witness Gen.IRI_REGEX Rfc3987.IRI)),
-           kv "rel" (f (witness Gen.IRELATIVE_REF_REGEX Rfc3987.irelativeRef)),
-           kv "disj" (f (witnessP okDisj Gen.IRI_REGEX Gen.IRELATIVE_REF_REGEX))]
+    reply [kv "abs" (f (witness Gen.Iri.IRI_REGEX Rfc3987.IRI)),
+           kv "rel" (f (witness Gen.Iri.IRELATIVE_REF_REGEX Rfc3987.irelativeRef)),
+           kv "disj" (f (witnessP okDisj Gen.Iri.IRI_REGEX Gen.Iri.IRELATIVE_REF_REGEX)),
+           kv "absbase" (f (witnessP okIncl Gen.Iri.IRI_REGEX Backend.Oxiri.abs)),
+           kv "refbase" (f (witnessP okIncl Gen.Iri.IRI_REF_REGEX Backend.Oxiri.ref))]
   | _ => "bad-op"
 
 abbrev State := Unit
